@@ -6,12 +6,14 @@ package c16
 
 import (
 	"fmt"
-	"github.com/biogo/biogo/io/featio/gff"
+	"io"
+	"log"
 	"os"
 	"sort"
 	"testing"
 
 	"github.com/biogo/biogo/align/pals"
+	"github.com/biogo/biogo/io/featio/gff"
 	"pgregory.net/rapid"
 
 	"verif/internal/vlib"
@@ -47,6 +49,9 @@ type pileCase struct {
 	// ViaGFF: the pairs are made by pals.ExpandFeature from GFF features carrying a Target attribute
 	// (the way pairs come back from a PALS feature file), not put together by hand
 	ViaGFF bool `json:"via_gff,omitempty"`
+	// LogFreq > 0: the piler's exported progress options are set (Logger writing to io.Discard, a line every
+	// LogFreq steps); logging changes nothing of what is reported
+	LogFreq int `json:"log_freq,omitempty"`
 }
 
 var contigs = []pals.Contig{"c0", "c1", "c2"}
@@ -61,6 +66,9 @@ type key struct {
 // pairs (nil for rejected ones) and an error string if Add misbehaved.
 func build(c pileCase, order []int, flip []bool) (*pals.Piler, []*pals.Pair, []bool, *vlib.Failure) {
 	p := pals.NewPiler(0)
+	if c.LogFreq > 0 {
+		p.Logger, p.LogFreq = log.New(io.Discard, "", 0), c.LogFreq
+	}
 	pairs := make([]*pals.Pair, len(c.Pairs))
 	accepted := make([]bool, len(c.Pairs))
 	seen := map[key]bool{}
@@ -511,6 +519,9 @@ func gen(t *rapid.T) pileCase {
 	c.Calls = rapid.SliceOfN(rapid.IntRange(0, 3), 0, 5).Draw(t, "piles-calls")
 	c.PilePct = rapid.SampledFrom([]int{0, 30, 50, 80, 95, 100}).Draw(t, "pile-pct")
 	c.ViaGFF = rapid.IntRange(0, 3).Draw(t, "via-gff") == 2
+	if rapid.IntRange(0, 3).Draw(t, "progress-logging") == 1 {
+		c.LogFreq = rapid.IntRange(1, 4).Draw(t, "log-freq")
+	}
 	return c
 }
 
@@ -590,6 +601,9 @@ func classes(c pileCase) []string {
 	}
 	// the pile-aware filter separates pairs (some pass, some do not) and some
 	// pair has its images on two locations
+	if c.LogFreq > 0 && len(c.Pairs) >= 2 {
+		l = append(l, "progress-logging-on")
+	}
 	if c.ViaGFF {
 		l = append(l, "pairs-made-by-ExpandFeature")
 	}
